@@ -17,7 +17,9 @@ UpdateFails(t) ==
       r == Update(ps, t.pre, t.req)
   IN
   \* the one relation the property states for every state with a preset
-  If(Consistent(ps, t.post), "preset-index-percentage-consistent")
+  \* (a model given presets but no initial fan speed starts at the default "off"/0%, which its table may not have
+  \* or may have with another percentage: that state is nobody's configuration; it is not asserted while it stays)
+  If((t.post = t.pre /\ ~Consistent(ps, t.pre)) \/ Consistent(ps, t.post), "preset-index-percentage-consistent")
   \cup
   (IF ~Settled(ps, t.pre, t.req) THEN {}      \* empty / unknown presets: not settled by the property text
    ELSE If(t.err = "OK", "err")
@@ -33,8 +35,12 @@ UpdateFails(t) ==
 
 Fails(t) ==
   IF t.panic # "" THEN {"panic"}
-  ELSE IF t.op = "New" THEN If(~t.hasInit \/ t.post = t.pre, "initial-fan-speed-used")
-                            \cup If(t.hasInit \/ t.custom \/ t.post = DefaultInit, "default-fan-speed")
+  \* the first read of the constructed model (FanSpeed() = post, the PullFanSpeed seed = seed) against the option
+  \* sequence folded by ConfInit; with presets but no initial fan speed the starting point is not configured
+  ELSE IF t.op = "New" THEN If(~HasOpt(t.opts, "init") \/ t.post = ConfInit(t.opts), "initial-fan-speed-used")
+                            \cup If(HasOpt(t.opts, "init") \/ HasOpt(t.opts, "presets") \/ t.post = DefaultInit, "default-fan-speed")
+                            \cup If(t.seed = t.post, "pull-seed-is-first-read")
+                            \cup If(t.presets = ConfPresets(t.opts), "spec-presets-not-folded")
   ELSE UpdateFails(t)
 
 BadLines == { k \in 1..Len(Obs) : Fails(Obs[k]) # {} }
